@@ -1,0 +1,70 @@
+//go:build verif
+
+// Contracts for metamethod selection (C04), transcribed from the handler-selection pseudo-code of the Lua 5.1 manual §2.8.
+// Comment-only; read by /verif/engine. See contracts_verif.go.
+
+package lua
+
+// rawmt(v): the metatable of v without consulting __metatable: tables and userdata carry their own, every other type
+// has one per-type metatable
+//@ define rawmt(ls *LState, v LValue) LValue = ite(isTab(v), tab(v).Metatable, ite(isUd(v), ud(v).Metatable, ite(has(ls.G.builtinMts, lvtype(v)), ls.G.builtinMts[lvtype(v)], LNil)))
+// mtEvent(v, e): metatable(v)[e] by a raw access, nil when there is no (table) metatable      (manual: "metatable(op)[event]", rawget)
+//@ define mtEvent(ls *LState, v LValue, e string) LValue = ite(rawmt(ls, v) != LNil && isTab(rawmt(ls, v)), sget(tab(rawmt(ls, v)), e), LNil)
+// no table stores a Go nil (part of the table representation invariant, C09), stated for all tables
+//@ define tabsValid() bool = forall t *LTable, s string :: t != nil && has(t.strdict, s) ==> t.strdict[s] != nil
+//@ define MetaOK(ls *LState) bool = ls != nil && ls.G != nil && mtsValid(ls) && tabsValid()
+
+//@ func (*LState).metatable [C04]
+//@ requires MetaOK(ls) && valOK(lvalue)
+//@ noraise
+//@ ensures  rawget ==> result == rawmt(ls, lvalue)
+//@ ensures  !rawget ==> result == ite(rawmt(ls, lvalue) != LNil && isTab(rawmt(ls, lvalue)) && sget(tab(rawmt(ls, lvalue)), "__metatable") != LNil, sget(tab(rawmt(ls, lvalue)), "__metatable"), rawmt(ls, lvalue))
+//@ modifies nothing
+
+//@ func (*LState).metaOp1 [C04]
+//@ requires MetaOK(ls) && valOK(lvalue)
+//@ noraise
+//@ ensures  result == mtEvent(ls, lvalue, event)
+//@ modifies nothing
+
+// getbinhandler: "try first operand, then second": the left operand's handler if it is not nil, else the right operand's
+//@ func (*LState).metaOp2 [C04]
+//@ requires MetaOK(ls) && valOK(value1) && valOK(value2)
+//@ noraise
+//@ ensures  result == ite(mtEvent(ls, value1, event) != LNil, mtEvent(ls, value1, event), mtEvent(ls, value2, event))
+//@ modifies nothing
+
+//@ func (*LState).metaCall [C02 C04]
+//@ requires MetaOK(ls) && valOK(lvalue)
+//@ noraise
+//@ ensures  isFn(lvalue) ==> result0 == fn(lvalue) && !result1
+//@ ensures  !isFn(lvalue) && isFn(mtEvent(ls, lvalue, "__call")) ==> result0 == fn(mtEvent(ls, lvalue, "__call")) && result1
+//@ ensures  !isFn(lvalue) && !isFn(mtEvent(ls, lvalue, "__call")) ==> result0 == nil && !result1
+//@ modifies nothing
+
+// comparison handlers: "__eq/__lt/__le" are used only when both operands have the SAME handler function; it is called
+// with (lhs, rhs) in that order and its truth value is the result.
+//@ func objectRational [C04]
+//@ requires L != nil && Inv_api(L) && MetaOK(L) && valOK(lhs) && valOK(rhs)
+//@ ensures  "no-handler": old(!(isFn(mtEvent(L, lhs, event)) && mtEvent(L, lhs, event) == mtEvent(L, rhs, event))) ==> result == 0 - 1 && ncalls() == old(ncalls())
+//@ ensures  "one-call": old(isFn(mtEvent(L, lhs, event)) && mtEvent(L, lhs, event) == mtEvent(L, rhs, event)) ==> ncalls() == old(ncalls()) + 1 && callfn(old(ncalls())) == fnid("(*LState).Call") && callargLV(old(ncalls()), 10) == old(mtEvent(L, lhs, event)) && callargLV(old(ncalls()), 11) == lhs && callargLV(old(ncalls()), 12) == rhs && callargInt(old(ncalls()), 1) == 2 && callargInt(old(ncalls()), 2) == 1
+//@ ensures  "truth-value": old(isFn(mtEvent(L, lhs, event)) && mtEvent(L, lhs, event) == mtEvent(L, rhs, event)) ==> result == ite(truthy(callresLV(old(ncalls()), 10)), 1, 0)
+//@ modifies everything
+
+// equality: different types are different; primitives compare by value; tables/userdata are equal when identical;
+// otherwise (and only when not raw) __eq decides; rawequal never calls a handler
+//@ func equals [C01 C04 C10]
+//@ requires L != nil && Inv_api(L) && MetaOK(L) && valOK(lhs) && valOK(rhs)
+//@ ensures  "types-differ": lvtype(lhs) != lvtype(rhs) ==> !result && ncalls() == old(ncalls())
+//@ ensures  "primitive": lvtype(lhs) == lvtype(rhs) && !isTab(lhs) && !isUd(lhs) ==> ncalls() == old(ncalls()) && (result <==> ite(isNum(lhs), num(lhs) == num(rhs), lhs == rhs))
+//@ ensures  "identical": (isTab(lhs) || isUd(lhs)) && lhs == rhs ==> result && ncalls() == old(ncalls())
+//@ ensures  "raw": raw ==> ncalls() == old(ncalls()) && ((isTab(lhs) || isUd(lhs)) && lhs != rhs ==> !result)
+//@ ensures  "no-common-handler": !raw && (isTab(lhs) || isUd(lhs)) && lvtype(lhs) == lvtype(rhs) && lhs != rhs && old(!(isFn(mtEvent(L, lhs, "__eq")) && mtEvent(L, lhs, "__eq") == mtEvent(L, rhs, "__eq"))) ==> !result && ncalls() == old(ncalls())
+//@ ensures  "handler": !raw && (isTab(lhs) || isUd(lhs)) && lvtype(lhs) == lvtype(rhs) && lhs != rhs && old(isFn(mtEvent(L, lhs, "__eq")) && mtEvent(L, lhs, "__eq") == mtEvent(L, rhs, "__eq")) ==> ncalls() == old(ncalls()) + 1 && callargLV(old(ncalls()), 11) == lhs && callargLV(old(ncalls()), 12) == rhs && (result <==> truthy(callresLV(old(ncalls()), 10)))
+//@ modifies everything
+
+//@ func strCmp [C01 C04]
+//@ noraise
+//@ ensures  0 - 1 <= result && result <= 1
+//@ modifies nothing
+//@ loop 1 invariant 0 <= i && i <= len2 && i <= len1 && len1 == len(s1) && len2 == len(s2)
